@@ -99,6 +99,12 @@ class _G:
         if self.p.get("domain_always_true") and self.chance(self.p["domain_always_true"]):
             # a declared domain that every value satisfies (keeps "values lie in their declared domains" true)
             node["domain"] = {"t": "pred", "p": "any"}
+            if self.chance(0.4):
+                # ... or an always-true domain that is itself an expression over another option (validate, keys and
+                # evaluate must all need that option; seeded change C10-agent6), often next to a constant default
+                node["domain"] = {"t": "step", "p": "anyarg", "arg": {"k": "opt", "key": self.pick(["B", "T", "L"])}}
+                if self.chance(0.5):
+                    node["default"] = {"t": "const", "v": self.pick([0, 1, None, [1]])}
             pool = [d for d in self.defs if not hashable or d["body"] == "first"]
             if pool and self.chance(0.5):
                 # ... next to a default that has a body of its own (checking the domain must not need the default's value
